@@ -3,7 +3,7 @@ C33 — property theorems.  Everything is about `run (init k n t0) ops` for ALL 
 `n`, initial collector counters `t0` and ALL op sequences `ops` (acquire with/without deadline, release —
 direct, through a context manager, or racing a timer —, fire-next-timer, cancel — direct or racing a timer).
 -/
-import TornadoModel.C33.Lemmas
+import TornadoModel.C33.Refine
 namespace TornadoModel.C33
 
 /-- the state after an arbitrary history -/
@@ -218,43 +218,6 @@ theorem gc_preserves_abs (s : St) : abs (gc s) = abs s := by
 
 /-! ### deadlines: a live waiter whose deadline is reached gets TimeoutError -/
 
-theorem mem_insTimer {t u : Timer} {l : List Timer} : t ∈ insTimer u l ↔ t = u ∨ t ∈ l := by
-  induction l with
-  | nil => simp [insTimer]
-  | cons a l ih =>
-    simp only [insTimer]
-    split
-    · simp
-    · simp [ih]
-      constructor
-      · rintro (h | h | h) <;> simp [h]
-      · rintro (h | h | h) <;> simp [h]
-
-theorem mem_sortTimers {t : Timer} {l : List Timer} : t ∈ sortTimers l ↔ t ∈ l := by
-  unfold sortTimers
-  have key : ∀ (acc : List Timer), t ∈ l.foldl (fun acc t => insTimer t acc) acc ↔ t ∈ acc ∨ t ∈ l := by
-    induction l with
-    | nil => simp
-    | cons a l ih =>
-      intro acc
-      simp only [List.foldl_cons, ih, mem_insTimer, List.mem_cons]
-      constructor
-      · rintro ((h | h) | h) <;> simp [h]
-      · rintro (h | h | h) <;> simp [h]
-  rw [key]; simp
-
-theorem minTimer_mem {ts : List Timer} {t : Timer} (h : minTimer ts = some t) : t ∈ ts := by
-  induction ts generalizing t with
-  | nil => simp [minTimer] at h
-  | cons a ts ih =>
-    simp only [minTimer] at h
-    split at h
-    · simp at h; simp [h]
-    · rename_i u hu
-      split at h
-      · simp at h; subst h; exact List.mem_cons_of_mem _ (ih hu)
-      · simp at h; simp [h]
-
 theorem onTimeout_sets {s : St} {w : Nat} (hp : isPend s.futs w = true) :
     (onTimeout s w).1.futs[w]? = some .timeout := by
   unfold onTimeout
@@ -302,19 +265,29 @@ theorem deadline_times_out (s : St) (t : Timer) (hm : minTimer s.timers = some t
 example : (step (after .sem 0 0 [.acquire (some 4), .acquire (some 2)]) .fire).1.futs[1]? = some .timeout := by
   decide
 
-/-! ### refinement to the sequential specification (stated, not proved: tie-only, see docs/C33.md) -/
-
-/-- the property only says that a refused release *raises*: both exception kinds are identified -/
-def Res.vis : Res → Res
-  | .runtimeError => .valueError
-  | r => r
+/-! ### refinement to the sequential specification -/
 
 /-- every history produces the same results and the same resolutions, in the same order, as the sequential
-semaphore of `Spec.lean`.  Exercised on every run (impl ≟ Model and impl ⊨ Spec on the same cases, and a
-direct Model ≟ Spec comparison on 16 000 random sequences with duplicate deadlines during development). -/
-def refines_spec_goal : Prop :=
-  ∀ (k : Kind) (n t0 : Nat) (ops : List Op),
+semaphore of `Spec.lean` (`Res.vis` identifies the two exception kinds of a refused release: the property only
+says that it *raises*).  Proof: forward simulation along `absF` (`Refine.lean`) under the invariants `Inv` and
+`TInv` (every scheduled timer belongs to a pending future). -/
+theorem refines_spec (k : Kind) (n t0 : Nat) (ops : List Op) :
     (run (init k n t0) ops).2.map (fun o => (Res.vis o.res, o.evs)) =
-      (Spec.run (Spec.init k n) ops).2.map (fun o => (Res.vis o.res, o.evs))
+      (Spec.run (Spec.init k n) ops).2.map (fun o => (Res.vis o.res, o.evs)) := by
+  have h := run_sim (inv_init k n t0) (TInv_init k n t0) ops
+  rw [absF_init] at h
+  exact h.symm
+
+/-- after every history the specification's state is the abstraction of the model's state -/
+theorem refines_spec_state (k : Kind) (n t0 : Nat) (ops : List Op) :
+    (Spec.run (Spec.init k n) ops).1 = absF (after k n t0 ops) := by
+  have h := run_sim_state (inv_init k n t0) (TInv_init k n t0) ops
+  rw [absF_init] at h
+  exact h
+
+example : (run (init .lock 0 99) [.acquire none, .acquire (some 2), .acquire (some 1), .raceRelease, .release,
+      .release]).2.map (fun o => (Res.vis o.res, o.evs)) =
+    [(.unit, [(0, .result 0)]), (.unit, []), (.unit, []), (.unit, [(1, .result 0), (2, .timeout)]), (.unit, []),
+     (.valueError, [])] := by decide
 
 end TornadoModel.C33
